@@ -104,11 +104,13 @@ func (fs *Store) AddMessage(m storage.Message) (id string, err error) {
 	}
 
 	// Write the message content.
+	verifStep("create-raw", fm.rawPath())
 	file, err := os.Create(fm.rawPath())
 	if err != nil {
 		return "", err
 	}
 	w := bufio.NewWriter(file)
+	verifStep("copy-raw", fm.rawPath())
 	size, err := io.Copy(w, r)
 	if err != nil {
 		// Try to remove the file.
@@ -117,12 +119,14 @@ func (fs *Store) AddMessage(m storage.Message) (id string, err error) {
 		return "", err
 	}
 	_ = r.Close()
+	verifStep("flush-raw", fm.rawPath())
 	if err := w.Flush(); err != nil {
 		// Try to remove the file.
 		_ = file.Close()
 		_ = os.Remove(fm.rawPath())
 		return "", err
 	}
+	verifStep("close-raw", fm.rawPath())
 	if err := file.Close(); err != nil {
 		// Try to remove the file.
 		_ = os.Remove(fm.rawPath())
